@@ -53,7 +53,8 @@ def _ops(version: str):
         st.builds(lambda n, c: ["rx", f"{n};{c};0;0;3;relay\n"], node, child),
         st.sampled_from((["rx", "0;255;3;0;9;log\n"], ["rx", "0;255;3;0;2;2.2.0\n"], ["rx", "0;255;3;0;2;2.0.1\n"], ["rx", "junk\n"])),
     )
-    free = st.lists(gen.weighted((4, send), (2, wake), (1, other)), min_size=8, max_size=30)
+    incoming = gen.with_ack(st.builds(lambda n, c, t, v: f"{n};{c};1;0;{t};{v}\n", node, child, vtype, value)).map(lambda l: ["rx", l])
+    free = st.lists(gen.weighted((4, send), (2, wake), (2, incoming), (1, other)), min_size=8, max_size=30)
 
     @st.composite
     def episodes(draw):
@@ -66,7 +67,7 @@ def _ops(version: str):
                     op = ["send", [target] + op[1][1:], op[2]]
                 ops.append(op)
                 if not draw(st.integers(0, 4)):
-                    ops.append(draw(gen.weighted((1, other), (1, wake))))
+                    ops.append(draw(gen.weighted((1, other), (1, wake), (2, incoming))))
             wake_op = draw(wake)
             if draw(st.integers(0, 4)):
                 wake_op = ["rx", f"{target};" + wake_op[1].split(";", 1)[1]]
@@ -82,7 +83,10 @@ def _ops(version: str):
 def _registry(draw) -> dict:
     reg: dict = {}
     for node in draw(st.sampled_from(((1, 2), (1, 2, 3), (1,), (2, 3), (1, 2)))):
-        children = {str(c): {"child_id": c, "child_type": 3, "description": "", "values": {}} for c in draw(st.sampled_from(((0, 1), (0,), ())))}
+        children = {
+            str(c): {"child_id": c, "child_type": 3, "description": "", "values": draw(st.sampled_from(({}, {}, {"0": "1", "2": "0"}, {"0": "0"})))}
+            for c in draw(st.sampled_from(((0, 1), (0, 1), (0,), ())))
+        }
         reg[str(node)] = {
             "node_id": node, "node_type": 17, "protocol_version": "2.0", "sketch_name": "", "sketch_version": "",
             "battery_level": 0, "heartbeat": 0, "sleeping": draw(st.sampled_from((True, True, True, False))), "children": children,
